@@ -177,7 +177,7 @@ class CNLTransformer(Transformer):
             entity = SignatureManager.get_signature(elem[0])
             entity.values = elem[1]
         except EntityNotFound as e:
-            CompilationError(str(e), line=meta.line)
+            raise CompilationError(str(e), line=meta.line)
 
     def implicit_definition_proposition(self, elem) -> None:
         for command in self._delayed_operations:
@@ -203,6 +203,8 @@ class CNLTransformer(Transformer):
                 raise CompilationError(
                     f"Impossible to use compound range clause for an entity (\"{name}\" with multiple keys", meta.line)
             entity.set_attribute_value(entity_keys[0].get_name(), value, entity_keys[0].origin)
+        except CompilationError:
+            raise
         except:
             entity = EntityComponent(name, '', [],
                                      [AttributeComponent(Utility.DEFAULT_ATTRIBUTE, value, AttributeOrigin(name))])
@@ -854,7 +856,7 @@ class CNLTransformer(Transformer):
             attribute.set_name('element')
             entity.set_attributes_value([elem[0]])
             return entity
-        except EntityNotFound as e:
+        except (EntityNotFound, AttributeGenericError) as e:
             raise CompilationError(str(e), meta.line)
 
     @v_args(meta=True)
@@ -873,6 +875,8 @@ class CNLTransformer(Transformer):
                 entity.set_shifted_value(-1, elem[3], element_variable)
         except AttributeGenericError as e:
             raise CompilationError(str(e), meta.line)
+        except ValueError:
+            raise CompilationError(f'Value "{elem[3]}" not declared in list {entity.get_entity_identifier()}', meta.line)
         return entity
 
     @v_args(meta=True)
@@ -884,7 +888,10 @@ class CNLTransformer(Transformer):
         if entity.entity_type != EntityType.LIST:
             raise CompilationError(f"Entity {entity.get_name()} is not a list.", meta.line)
         element_variable = elem[1] if elem[1] else self._new_field_value('element')
-        entity.set_index_value(int(elem[0]) - 1, element_variable)
+        try:
+            entity.set_index_value(int(elem[0]) - 1, element_variable)
+        except IndexError:
+            raise CompilationError(f'Index {elem[0]} out of list {entity.get_entity_identifier()} range', meta.line)
         return entity
 
     def complex_entity_parameter(self, elem):
